@@ -92,7 +92,7 @@ func CalcRectangleVerticesCentroid(rectangle Polygon) Point {
 	}
 	x /= length
 	y /= length
-	return NewPoint(x, x)
+	return NewPoint(x, y)
 }
 
 // CalcPolygonVerticesCentroid 基于多边形的顶点的平均值计算质心
